@@ -120,7 +120,7 @@ var c14Counter atomic.Int64
 // server builds a graph per status request): admission must depend on the
 // graph alone.
 func c14Concurrent(c *core.Ctx) {
-	rounds := c.Pick(6000, 100000)
+	rounds := c.Pick(15000, 100000)
 	if c.Race {
 		rounds = c.Pick(1500, 20000)
 	}
@@ -362,6 +362,8 @@ func c14Random(r *rand.Rand) ([]string, map[string][]string, string) {
 }
 
 func init() {
+	// the node-id counter is the state every graph constructor shares across goroutines
+	core.RaceGate["C14"] = []string{"scheduler.getNextNodeID", "scheduler.(*Node).init"}
 	core.Register(&core.Prop{ID: "C14", Level: "exploration", Body: c14Body, CrashKey: crashKeyGeneric, MinDistinct: 1000,
 		Passes: func(tier string) []core.Pass {
 			return []core.Pass{{Name: "main", Mode: "controlled", Shards: 16, Timeout: 40 * time.Minute},
